@@ -222,6 +222,24 @@ def run(ctx, c19=False):
             r += 3
         pres = [{'naming': rnd.choice(['int', 'str', 'tuple', 'obj'] if not c19 else ['str', 'tuple', 'mixed', 'neg', 'obj', 'objmix']), 'shuf': rnd.randrange(1 << 30)}]
         hists.append({'ks': [K], 'fs': fs, 'steps': steps, 'family': 'short history around boundary answers', 'pres': pres, 'seed': rnd.randrange(1 << 30)})
+    # medium sparse structures (9-12 states, every atom in one or two states): many different next-time / reachability queries
+    # interleaved on ONE structure object (an index or cache kept on the structure must not be disturbed by a query)
+    for _ in range(150 if q else 3000):
+        n = rnd.randint(9, 12)
+        K = gen.rand_kripke(rnd, n, density=rnd.choice([0.1, 0.15, 0.2]))
+        K = dict(K, L=[sorted(x for x in 'pq' if rnd.random() < 0.15) for _i in range(n)])
+        lits = [P, Q, ('and', P, Q), ('or', P, Q)]
+        fs = []
+        for _i in range(5):
+            a = rnd.choice(lits)
+            fs.append({'logic': 'CTL', 'f': rnd.choice([('E', ('X', a)), ('A', ('X', ('not', a))), ('E', ('X', ('E', ('X', a)))), ('E', ('F', a)), ('A', ('X', a)),
+                                                       ('E', ('U', ('not', a), rnd.choice(lits))), ('E', ('X', ('not', a)))])})
+        steps = []
+        order = [rnd.randint(1, 5) for _i in range(10)]
+        for r, j in enumerate(order):
+            steps.append({'op': 'call', 'k': 1, 'j': j, 'mode': rnd.choice(['obj', 'obj', 'text']), 'fair': 'none', 'r': r + 1})
+        hists.append({'ks': [K], 'fs': fs, 'steps': steps, 'family': 'medium sparse structure, interleaved queries',
+                      'pres': [{'naming': rnd.choice(['int', 'str', 'obj']), 'shuf': rnd.randrange(1 << 30)}], 'seed': rnd.randrange(1 << 30)})
     if c19:          # every well-formed query returns (no internal error such as RecursionError) also on large structures
         bigfam.run_big(ctx, bigfam.cases(rnd, ['mc'], 8 if q else 80, logics=('CTL', 'CTL', 'LTL', 'CTLS')))
     events = finish(ctx, hists)
